@@ -78,7 +78,11 @@ def run(res):
         # closure / processing order / atom multisets are internal: a deviation there is a broken correspondence, and a
         # failing input only if some ANSWER is wrong too (the answer-level run above, or the validator's own comparison
         # of modelcheck / _checkE_path_formula answers)
-        answers_wrong = ('differs from _checkE_path_formula' in atoms_out) or ('modelcheck is not the complement' in atoms_out) or ('implementation raised' in atoms_out)
+        # a crash of the validator's own hooks into the private tableau (`_get_closure`, `_Tableu`, the `sorted` spy) is
+        # a correspondence that no longer fits, not a failing input
+        hook_crash = ('Traceback' in atoms_out and 'MISMATCH' not in atoms_out.upper()) or 'HarnessError' in atoms_out or 'AssertionError' in atoms_out
+        answers_wrong = (not hook_crash) and (('differs from _checkE_path_formula' in atoms_out) or ('modelcheck is not the complement' in atoms_out)
+                                              or ('implementation raised' in atoms_out))
         res.violation('the tableau internals (_get_closure / cl_list / _build_atoms / _Tableu) differ from the model '
                       'buildAtoms (PMC/Model/LTLAtoms.lean, proved equivalent to the declarative tableau): '
                       + atoms_out[-700:].replace('\n', ' '),
